@@ -67,6 +67,11 @@ def check_edge(ctx, comp, n, v, K, s, exact, cache):
     return shrink
 
 
+def regen(ctx):
+    import registry_dump
+    registry_dump.regen_registry()
+
+
 def run(ctx, proof):
     rng = ctx.rng
     sa_comps = ["superadditive", "superadditive_cached"]
